@@ -268,8 +268,8 @@ class MetaMap(object):
     """reader.object_metadata of any size"""
     _absent = ()
 
-    def __init__(self, vc, daqmx):
-        self.vc, self.daqmx = vc, daqmx
+    def __init__(self, vc, daqmx, recorders=False):
+        self.vc, self.daqmx, self.recorders = vc, daqmx, recorders
         self.lookups = []      # (path, found, metadata or None, state before or None)
         self.stores = []
 
@@ -291,7 +291,7 @@ class MetaMap(object):
             sc = None
             if self.daqmx:
                 sc = SC_A if vc.interp.truth(vc.bool(tag + "_scA")) else None
-            props = OrderedDict()
+            props = PropRecorder(vc.st) if self.recorders else OrderedDict()
             m = vc.new("reader.ObjectMetadata", properties=props, data_type=typ, scaler_data_types=sc,
                        num_values=vc.int(tag + "_n", lo=0))
             self.lookups.append((path, True, m, (m.num_values, typ, sc, props)))
@@ -338,7 +338,8 @@ def _setup_uom_all(interp):
         g["metamap"].lookups[:] = []
         g["metamap"].stores[:] = []
         g["prevmem"].stores[:] = []
-        st.ghost["iter"] = dict(k=k, obj=env.vars["segment_object"])
+        mine = [oo for (j0, oo, snap) in g["objs"].elements if j0 is k]
+        st.ghost["iter"] = dict(k=k, obj=mine[0])
 
     def inv(env, k, st):
         g = st.ghost["uom"]
@@ -454,3 +455,181 @@ def _uom_all(vc):
         return
     vc.ensure("segment-keeps-its-object-list", seg.ordered_objects is objs, kind="frame")
     vc.ensure("reader-keeps-its-maps", rd.object_metadata is mm and rd._prev_segment_objects is pm, kind="frame")
+
+
+# ---------------------------------------------------------------------------- _update_object_properties, any sizes
+#
+# Both loops are cut by invariants: any number of objects with properties in a segment, any number of properties
+# per object, object_metadata of any size.  Outer iteration i looks the metadata of path i up (or creates it under
+# that path) exactly once; inner iteration j stores exactly (name j -> value j) into that object's property map and
+# nothing else - applied in file order, so the last value written for a name is the one that stays.
+
+class PropList(object):
+    _absent = ()
+
+    def __init__(self, vc, tag):
+        self.vc = vc
+        self.n = vc.int(tag + "_count", lo=0)
+        self.tag = tag
+        self.elements = []
+
+    def element(self, j):
+        for (j0, pair) in self.elements:
+            if j0 is j:
+                return pair
+        t = sym.fresh_name(self.tag + "_p")
+        pair = (fresh_str(self.vc.st, t + "_name"), self.vc.int(t + "_value"))
+        self.elements.append((j, pair))
+        return pair
+
+    def as_symseq(self):
+        g = self.vc.st.ghost.get("uop")
+        if g is not None:
+            g["last_proplist"] = self
+        return SymSeq(self.n, self.element, "properties")
+
+
+class SegmentProps(object):
+    """the properties dictionary returned by read_segment_objects: path -> list of (name, value)"""
+    _absent = ()
+
+    def __init__(self, vc):
+        self.vc = vc
+        self.n = vc.int("objects_with_properties", lo=0)
+        self.elements = []
+
+    def element(self, i):
+        for (i0, pair) in self.elements:
+            if i0 is i:
+                return pair
+        t = sym.fresh_name("entry")
+        pair = (fresh_str(self.vc.st, t + "_path"), PropList(self.vc, t))
+        self.elements.append((i, pair))
+        return pair
+
+    def items(self):
+        return SymSeq(self.n, self.element, "segment-properties")
+
+
+class PropRecorder(Recorder):
+    """an object's property map after some stores: whether a name is already present is unknown"""
+
+    def __init__(self, st):
+        Recorder.__init__(self)
+        self.st = st
+
+    def __contains__(self, name):
+        return self.st.fresh_bool("name_already_set")
+
+
+def _setup_uop_all(interp):
+    # The invariants speak about the reader's maps and the segment's entries only, never about the function's
+    # local variables: renaming or dropping a temporary must not disturb them.
+    def metadata_init(interp_, f, args, kwargs):
+        """contract of ObjectMetadata.__init__ (executed for real in update_object_metadata_all_objects, which
+        checks a new object's length, type and empty property map): the property map is a recorder here"""
+        st = sym.get_state()
+        m = args[0]
+        interp_.setattr_value(m, "properties", PropRecorder(st))
+        interp_.setattr_value(m, "data_type", None)
+        interp_.setattr_value(m, "scaler_data_types", None)
+        interp_.setattr_value(m, "num_values", 0)
+        return None
+
+    interp.contracts_at_calls["nptdms.reader:ObjectMetadata.__init__"] = metadata_init
+
+    def target_of(g):
+        mm = g["metamap"]
+        if len(mm.lookups) == 1 and mm.lookups[0][1]:
+            return mm.lookups[0][2], mm.lookups[0][3]
+        if len(mm.lookups) == 1 and len(mm.stores) == 1:
+            return mm.stores[0][1], (0, None, None, None)
+        return None, None
+
+    def on_outer(env, k, st):
+        g = st.ghost["uop"]
+        g["metamap"].lookups[:] = []
+        g["metamap"].stores[:] = []
+        mine = [pair for (i0, pair) in g["sprops"].elements if i0 is k]
+        st.ghost["outer"] = dict(k=k, path=mine[0][0], plist=mine[0][1])
+        st.ghost["inner"] = None
+
+    def inv_outer(env, k, st):
+        g = st.ghost["uop"]
+        rd = env.vars["self"]
+        out = [("reader-keeps-its-metadata-map", rd.object_metadata is g["metamap"])]
+        it = st.ghost.get("outer")
+        if it is not None and not it.get("checked") and it.get("inner_seen"):
+            it["checked"] = True
+            mm = g["metamap"]
+            out.append(("metadata-looked-up-once-under-the-entry's-path",
+                        len(mm.lookups) == 1 and mm.lookups[0][0] is it["path"]))
+            if len(mm.lookups) == 1 and not mm.lookups[0][1]:
+                out.append(("new-object/created-under-the-entry's-path",
+                            len(mm.stores) == 1 and mm.stores[0][0] is it["path"]))
+            elif len(mm.lookups) == 1:
+                out.append(("known-object/no-new-metadata-entry", len(mm.stores) == 0))
+            out.append(("the-entry's-own-property-list-was-walked", it.get("inner_list") is it["plist"]))
+        return out
+
+    def on_inner(env, j, st):
+        g = st.ghost["uop"]
+        o = st.ghost["outer"]
+        plist = o["inner_list"]
+        mine = [pair for (j0, pair) in plist.elements if j0 is j]
+        m, before = target_of(g)
+        if m is not None and isinstance(m.properties, PropRecorder):
+            m.properties.stores[:] = []          # havoc: the map's state after j stores is unknown
+        st.ghost["inner"] = dict(j=j, name=mine[0][0], value=mine[0][1])
+
+    def inv_inner(env, j, st):
+        g = st.ghost["uop"]
+        o = st.ghost.get("outer")
+        m, before = (None, None) if o is None else target_of(g)
+        out = [("metadata-of-the-entry's-path-found-or-created-before-its-properties-are-applied",
+                m is not None and isinstance(m.properties, PropRecorder))]
+        if o is not None and not o.get("inner_seen"):
+            o["inner_seen"] = True
+            o["inner_list"] = g["last_proplist"]
+        it = st.ghost.get("inner")
+        if it is not None and not it.get("checked") and m is not None:
+            it["checked"] = True
+            rec = m.properties
+            out.append(("exactly-one-property-stored-in-that-object's-map",
+                        isinstance(rec, PropRecorder) and len(rec.stores) == 1))
+            if isinstance(rec, PropRecorder) and len(rec.stores) == 1:
+                out.append(("stored-under-its-name", rec.stores[0][0] is it["name"]))
+                out.append(("stored-value-is-the-value-read", rec.stores[0][1] is it["value"]))
+            (n0, t0, sc0, props0) = before
+            out.append(("length-and-type-untouched", And(m.num_values == n0) and m.data_type is t0))
+            others = [mm_ for (_, found, mm_, _) in g["metamap"].lookups if found and mm_ is not m]
+            out.append(("no-other-object's-properties-touched", len(others) == 0))
+        return out
+
+    interp.loop_specs[("nptdms.reader:TdmsReader._update_object_properties", 0)] = LoopSpec(
+        inv_outer, havoc={"__locals__": ("object_metadata", "prop", "val")}, on_iter=on_outer,
+        name="objects-with-properties")
+    interp.loop_specs[("nptdms.reader:TdmsReader._update_object_properties", 1)] = LoopSpec(
+        inv_inner, havoc={}, on_iter=on_inner, name="properties-of-one-object")
+
+
+@harness("update_object_properties_all", ["reader.TdmsReader._update_object_properties",
+                                          "reader.TdmsReader._get_or_create_object",
+                                          "reader.ObjectMetadata.__init__"],
+         ["C01", "C07"], setup=_setup_uop_all, level="proof",
+         note="ANY number of objects with properties and ANY number of properties per object (two loop invariants), "
+              "object_metadata of any size: every (name, value) is stored once, in file order, into the metadata "
+              "of its path")
+def _uop_all(vc):
+    st = vc.st
+    rd = mk_reader(vc, 100)
+    mm = MetaMap(vc, False, recorders=True)
+    rd.object_metadata = mm
+    sp = SegmentProps(vc)
+    st.ghost["uop"] = dict(metamap=mm, sprops=sp, last_proplist=None)
+    vc.cover("many-objects-with-properties-are-within-the-precondition", sp.n >= 1000)
+    out = vc.call_method(rd, "_update_object_properties", sp)
+    vc.ensure("no-exception", out.kind == "ret")
+    vc.ensure("reader-keeps-its-metadata-map", rd.object_metadata is mm, kind="frame")
+    none = vc.call_method(rd, "_update_object_properties", None)
+    vc.ensure("no-properties-in-the-segment/nothing-happens", none.kind == "ret")
